@@ -354,7 +354,9 @@ Definition run_from (counting : bool) (limit : nat) (st : tstate) (chunks : list
 
 (* ---- the pty child of the system transport (scrapli/transport/plugins/system/ptyprocess.py) ----
    PtyProcess.close() and the parent part of PtyProcess.spawn() are translated from the source
-   (Gen_Lifecycle.gen_pty_close, gen_pty_spawn); isalive() / terminate() are modelled by hand. *)
+   (Gen_Lifecycle.gen_pty_close, gen_pty_spawn; the force argument close() gives to terminate() is part of
+   the translation); isalive() / terminate() are modelled by hand (the translator checks the signal sequence
+   of terminate(): SIGHUP, SIGCONT, SIGINT, and SIGKILL under `if force`). *)
 Inductive child :=
 | CRunning     (* the forked child runs *)
 | CExited      (* it has exited and nobody has waited for it: defunct, still in the process table *)
@@ -368,9 +370,10 @@ Inductive pres :=
 | PRaised      (* PtyProcessError("Could not terminate the child.") *)
 | PBlocks.     (* never returns: isalive() uses the BLOCKING waitpid once flag_eof is set *)
 
-(* outside the object: does closing the master fd (SIGHUP) make the child exit; do the signals of
-   terminate(force=True) (SIGHUP, SIGCONT, SIGINT, SIGKILL) get rid of it *)
-Record penv := mkPE { hup_exits : bool; kill_works : bool }.
+(* outside the object: does closing the master fd (hang-up: SIGHUP from the kernel, end of input) make the child
+   exit; do the polite signals of terminate() (SIGHUP, SIGCONT, SIGINT) end it (false: a child that ignores SIGHUP
+   and SIGINT, e.g. a wedged ssh / ProxyCommand wrapper); does SIGKILL, which terminate() sends only with force=True *)
+Record penv := mkPE { hup_exits : bool; polite_works : bool; kill_works : bool }.
 
 Definition child_eqb (a b : child) : bool :=
   match a, b with CRunning, CRunning | CExited, CExited | CReaped, CReaped => true | _, _ => false end.
@@ -383,13 +386,14 @@ Definition isalive (s : pty) : pty * option bool :=
   | CRunning => if y_eof s then (s, None) else (s, Some true)
   end.
 
-(* terminate(force=True): True when the child is gone (and reaped), False when it survives *)
-Definition terminate (E : penv) (s : pty) : pty * option bool :=
+(* terminate(force): SIGHUP, SIGCONT, SIGINT, then SIGKILL if force; True when the child is gone (and reaped),
+   False when it survives (the signal sequence is checked against the source by the translator) *)
+Definition terminate (force : bool) (E : penv) (s : pty) : pty * option bool :=
   match isalive s with
   | (s1, None) => (s1, None)
   | (s1, Some false) => (s1, Some true)
   | (s1, Some true) =>
-      if kill_works E then (mkPty CReaped (y_fd s1) (y_closed s1) (y_eof s1), Some true) else (s1, Some false)
+      if polite_works E || (force && kill_works E) then (mkPty CReaped (y_fd s1) (y_closed s1) (y_eof s1), Some true) else (s1, Some false)
   end.
 
 Inductive pcond :=
@@ -405,7 +409,7 @@ Inductive pstmt :=
 | PDelFileobj         (* with suppress(AttributeError): del self.fileobj  — closes the master fd *)
 | PNop                (* time.sleep(...), self.fd = -1, self.pid = None *)
 | PMarkClosed         (* self.closed = True *)
-| PTerminateOrRaise.  (* if not self.terminate(force=True): raise PtyProcessError(...) *)
+| PTerminateOrRaise (force : bool).  (* if not self.terminate(force=...): raise PtyProcessError(...) *)
 
 Definition pcond_eval (c : pcond) (s : pty) : pty * option bool :=
   match c with
@@ -431,7 +435,7 @@ Fixpoint prun (E : penv) (p : pstmt) (s : pty) : pty * pres :=
       (mkPty (match y_child s with CRunning => if hup_exits E then CExited else CRunning | x => x end)
              false (y_closed s) (y_eof s), PDone)
   | PMarkClosed => (mkPty (y_child s) (y_fd s) true (y_eof s), PDone)
-  | PTerminateOrRaise => match terminate E s with
+  | PTerminateOrRaise force => match terminate force E s with
                          | (s1, None) => (s1, PBlocks)
                          | (s1, Some true) => (s1, PDone)
                          | (s1, Some false) => (s1, PRaised)
@@ -441,7 +445,7 @@ Fixpoint prun (E : penv) (p : pstmt) (s : pty) : pty * pres :=
 (* PtyProcess.close() as it is in the source now *)
 Definition pty_close_now : pstmt :=
   PIf PNotClosed
-      (PSeq PDelFileobj (PSeq PNop (PSeq (PIf PIsAlive PTerminateOrRaise) (PSeq PNop (PSeq PMarkClosed PNop))))).
+      (PSeq PDelFileobj (PSeq PNop (PSeq (PIf PIsAlive (PTerminateOrRaise true)) (PSeq PNop (PSeq PMarkClosed PNop))))).
 
 Definition pty_released (s : pty) : bool := child_eqb (y_child s) CReaped && negb (y_fd s) && y_closed s.
 
@@ -456,7 +460,8 @@ Definition all_children := [CRunning; CExited; CReaped].
 Definition all_bools := [true; false].
 Definition all_pty : list pty :=
   flat_map (fun c => flat_map (fun f => flat_map (fun cl => map (fun e => mkPty c f cl e) all_bools) all_bools) all_bools) all_children.
-Definition all_penv : list penv := flat_map (fun h => map (fun k => mkPE h k) all_bools) all_bools.
+Definition all_penv : list penv :=
+  flat_map (fun h => flat_map (fun q => map (fun k => mkPE h q k) all_bools) all_bools) all_bools.
 
 Definition close_case_ok (p : pstmt) (E : penv) (s : pty) : bool :=
   if y_closed s then
